@@ -5,6 +5,9 @@ From PV Require Import M_Dot S_Dot S_DotClass L_Dot L_Dot2 L_Dot3.
 Open Scope string_scope.
 Open Scope Z_scope.
 
+Lemma fmt_value_safe : forall t v, qsafe (fmt_value t v) = true.
+Proof. intros t v. apply escape_safe. Qed.
+
 Lemma append_nil_l : forall s : string, "" ++ s = s.
 Proof. reflexivity. Qed.
 
@@ -49,12 +52,12 @@ Definition closed_in (ctx : list string) (d e : list string) : Prop :=
   forall x, In x e -> In x ctx \/ In x d.
 
 Lemma numeric_stmt : forall g ft source nts j,
-  tab_safe (dg_fv g) = true -> good_id source = true -> 0 <= j ->
+  good_id source = true -> 0 <= j ->
   exists d e, StmtText (emit_numeric g ft source nts j) d e /\ closed_in [source] d e.
 Proof.
-  intros g ft source nts. induction nts as [|t r IH]; intros j Hfv Hs Hj.
+  intros g ft source nts. induction nts as [|t r IH]; intros j Hs Hj.
   - exists [], []. split; [apply Stmt_nil | intros x []].
-  - destruct (IH (j + 1) Hfv Hs ltac:(lia)) as [d [e [St Cl]]].
+  - destruct (IH (j + 1) Hs ltac:(lia)) as [d [e [St Cl]]].
     simpl.
     set (nm := "N" ++ source ++ "_" ++ zs j).
     assert (Hnm : good_id nm = true) by (apply Nsub_good; assumption).
@@ -62,7 +65,7 @@ Proof.
     + destruct (nt_flat t =? 0).
       * exists d, e. split; [exact St | exact Cl].
       * exists ([nm] ++ d)%list, ([source; nm] ++ e)%list. split.
-        -- stmt_app [nm] [source; nm] d e; [|exact St]. apply nodelet_stmt; auto using zlookup_safe.
+        -- stmt_app [nm] [source; nm] d e; [|exact St]. apply nodelet_stmt; auto using fmt_value_safe.
         -- intros x Hx. simpl in Hx. destruct Hx as [Hx|[Hx|Hx]].
            ++ left. left. exact Hx.
            ++ right. left. exact Hx.
@@ -70,7 +73,7 @@ Proof.
     + destruct (nt_cum t =? 0).
       * exists d, e. split; [exact St | exact Cl].
       * exists ([nm] ++ d)%list, ([source; nm] ++ e)%list. split.
-        -- stmt_app [nm] [source; nm] d e; [|exact St]. apply nodelet_stmt; auto using zlookup_safe.
+        -- stmt_app [nm] [source; nm] d e; [|exact St]. apply nodelet_stmt; auto using fmt_value_safe.
         -- intros x Hx. simpl in Hx. destruct Hx as [Hx|[Hx|Hx]].
            ++ left. left. exact Hx.
            ++ right. left. exact Hx.
@@ -80,18 +83,18 @@ Qed.
 Lemma emit_tags_cons : forall g ft id t r i,
   emit_tags g ft id (t :: r) i =
   (if (if ft then lt_flat t else lt_cum t) =? 0 then ""
-   else emit_nodelet (nid id) ("N" ++ zs id ++ "_" ++ zs i) (lt_name t) (zlookup (dg_fv g) (if ft then lt_flat t else lt_cum t)) ""
+   else emit_nodelet (nid id) ("N" ++ zs id ++ "_" ++ zs i) (lt_name t) (fmt_value (dg_fv g) (if ft then lt_flat t else lt_cum t)) ""
         ++ match lt_num t with Some nts => emit_numeric g ft ("N" ++ zs id ++ "_" ++ zs i) nts 0 | None => "" end)
   ++ emit_tags g ft id r (i + 1).
 Proof. reflexivity. Qed.
 
 Lemma tags_stmt : forall g ft id ts i,
-  tab_safe (dg_fv g) = true -> 0 <= id -> 0 <= i ->
+  0 <= id -> 0 <= i ->
   exists d e, StmtText (emit_tags g ft id ts i) d e /\ closed_in [nid id] d e.
 Proof.
-  intros g ft id ts. induction ts as [|t r IH]; intros i Hfv Hid Hi.
+  intros g ft id ts. induction ts as [|t r IH]; intros i Hid Hi.
   - exists [], []. split; [apply Stmt_nil | intros x []].
-  - destruct (IH (i + 1) Hfv Hid ltac:(lia)) as [d [e [St Cl]]].
+  - destruct (IH (i + 1) Hid ltac:(lia)) as [d [e [St Cl]]].
     rewrite emit_tags_cons.
     set (nm := "N" ++ zs id ++ "_" ++ zs i).
     assert (Hnm : good_id nm = true) by (apply nidsub_good; assumption).
@@ -100,13 +103,13 @@ Proof.
     + assert (Hn : exists d1 e1, StmtText (match lt_num t with Some nts => emit_numeric g ft nm nts 0 | None => "" end) d1 e1
                                  /\ closed_in [nm] d1 e1).
       { destruct (lt_num t) as [nts|].
-        - apply numeric_stmt; [exact Hfv | exact Hnm | lia].
+        - apply numeric_stmt; [exact Hnm | lia].
         - exists [], []. split; [apply Stmt_nil | intros x []]. }
       destruct Hn as [d1 [e1 [St1 Cl1]]].
       exists (([nm] ++ d1) ++ d)%list, (([nid id; nm] ++ e1) ++ e)%list. split.
       * stmt_app ([nm] ++ d1)%list ([nid id; nm] ++ e1)%list d e; [|exact St].
         stmt_app [nm] [nid id; nm] d1 e1; [|exact St1].
-        apply nodelet_stmt; auto using zlookup_safe, nid_good.
+        apply nodelet_stmt; auto using fmt_value_safe, nid_good.
       * intros x Hx. apply in_app_or in Hx. destruct Hx as [Hx|Hx].
         -- simpl in Hx. destruct Hx as [Hx|[Hx|Hx]].
            ++ left. left. exact Hx.
@@ -117,15 +120,15 @@ Proof.
         -- destruct (Cl x Hx) as [H|H]; [left; exact H | right; apply in_or_app; right; exact H].
 Qed.
 
-Lemma nodelets_stmt : forall g n id, tab_safe (dg_fv g) = true -> 0 <= id ->
+Lemma nodelets_stmt : forall g n id, 0 <= id ->
   exists d e, StmtText (emit_nodelets g n id) d e /\ closed_in [nid id] d e.
 Proof.
-  intros g n id Hfv Hid. unfold emit_nodelets.
-  destruct (tags_stmt g (dn_hasout n) id (dn_tags n) 0 Hfv Hid ltac:(lia)) as [d [e [St Cl]]].
+  intros g n id Hid. unfold emit_nodelets.
+  destruct (tags_stmt g (dn_hasout n) id (dn_tags n) 0 Hid ltac:(lia)) as [d [e [St Cl]]].
   assert (Hn : exists d1 e1, StmtText (match dn_rootnum n with Some nts => emit_numeric g (dn_hasout n) ("N" ++ zs id) nts 0 | None => "" end) d1 e1
                                /\ closed_in [nid id] d1 e1).
   { destruct (dn_rootnum n) as [nts|].
-    - apply (numeric_stmt g (dn_hasout n) (nid id) nts 0 Hfv (nid_good id Hid)). lia.
+    - apply (numeric_stmt g (dn_hasout n) (nid id) nts 0 (nid_good id Hid)). lia.
     - exists [], []. split; [apply Stmt_nil | intros x []]. }
   destruct Hn as [d1 [e1 [St1 Cl1]]].
   exists (d ++ d1)%list, (e ++ e1)%list. split; [stmt_app d e d1 e1; assumption|].
@@ -146,36 +149,142 @@ Proof.
     destruct (String.eqb name ""); simpl; [reflexivity | now rewrite Hn].
 Qed.
 
-Lemma multiline_safe : forall i, forallb qsafe (label_tail i) = true -> qsafe (multiline_printable_name i) = true.
+(* ---------------- filepath.Base and escaping ---------------- *)
+Fixpoint noslash (s : string) : bool :=
+  match s with EmptyString => true | String c r => negb (Ascii.eqb c "/") && noslash r end.
+
+Lemma take_until_noslash : forall r acc, noslash acc = true -> noslash (take_until_slash r acc) = true.
 Proof.
-  intros i H. unfold multiline_printable_name. apply qsafe_app; [|reflexivity].
+  induction r as [|c r IH]; intros acc H; [exact H|]. cbn [take_until_slash].
+  destruct (Ascii.eqb c "/") eqn:E; [exact H|]. apply IH. cbn [noslash]. now rewrite E.
+Qed.
+Lemma take_until_all : forall r acc, noslash r = true -> take_until_slash r acc = rev_string_acc r acc.
+Proof.
+  induction r as [|c r IH]; intros acc H; [reflexivity|]. cbn [noslash] in H.
+  apply andb_prop in H. destruct H as [Hc Hr]. apply Bool.negb_true_iff in Hc.
+  cbn [take_until_slash rev_string_acc]. rewrite Hc. now apply IH.
+Qed.
+Lemma take_until_nonempty : forall r acc, acc <> "" -> take_until_slash r acc <> "".
+Proof.
+  induction r as [|c r IH]; intros acc H; [exact H|]. cbn [take_until_slash].
+  destruct (Ascii.eqb c "/"); [exact H | apply IH; discriminate].
+Qed.
+Lemma strip_head : forall r, strip_trailing_slashes_rev r = "" \/
+  exists c r', strip_trailing_slashes_rev r = String c r' /\ Ascii.eqb c "/" = false.
+Proof.
+  induction r as [|c r IH]; [left; reflexivity|]. cbn [strip_trailing_slashes_rev].
+  destruct (Ascii.eqb c "/") eqn:E; [exact IH|]. right. exists c, r. split; [reflexivity | exact E].
+Qed.
+Lemma noslash_rev_acc : forall s acc, noslash s = true -> noslash acc = true -> noslash (rev_string_acc s acc) = true.
+Proof.
+  induction s as [|c r IH]; intros acc Hs Ha; [exact Ha|]. cbn [noslash] in Hs. apply andb_prop in Hs. destruct Hs as [Hc Hr].
+  cbn [rev_string_acc]. apply IH; [exact Hr|]. cbn [noslash]. now rewrite Hc.
+Qed.
+
+(* the base name is ".", "/" or a non-empty text without a slash *)
+Lemma path_base_shape : forall p, path_base p = "." \/ path_base p = "/" \/ (noslash (path_base p) = true /\ path_base p <> "").
+Proof.
+  intro p. unfold path_base. destruct p as [|c0 p0]; [left; reflexivity|].
+  destruct (strip_head (rev_string (String c0 p0))) as [E|[c [r' [E Hc]]]]; rewrite E.
+  - right. left. reflexivity.
+  - right. right. cbn [take_until_slash]. rewrite Hc. split.
+    + apply take_until_noslash. cbn [noslash]. now rewrite Hc.
+    + apply take_until_nonempty. discriminate.
+Qed.
+
+(* applying Base once more changes nothing *)
+Lemma path_base_noslash : forall y, noslash y = true -> y <> "" -> path_base y = y.
+Proof.
+  intros y Hn Hne. unfold path_base. destruct y as [|c0 y0]; [congruence|].
+  assert (Hr : noslash (rev_string (String c0 y0)) = true) by (apply noslash_rev_acc; [exact Hn | reflexivity]).
+  destruct (rev_string (String c0 y0)) as [|c r] eqn:E.
+  - exfalso. assert (H : rev_string (rev_string (String c0 y0)) = String c0 y0) by apply rev_string_involutive.
+    rewrite E in H. discriminate H.
+  - cbn [noslash] in Hr. apply andb_prop in Hr. destruct Hr as [Hc Hr']. apply Bool.negb_true_iff in Hc.
+    cbn [strip_trailing_slashes_rev]. rewrite Hc. cbn [take_until_slash]. rewrite Hc.
+    rewrite take_until_all by exact Hr'.
+    change (rev_string_acc r (String c "")) with (rev_string_acc (String c r) ""). rewrite <- E.
+    apply (rev_string_involutive (String c0 y0)).
+Qed.
+
+Lemma escape_noslash : forall s, noslash s = true -> noslash (escape_for_dot s) = true.
+Proof.
+  induction s as [|c r IH]; intro H; [reflexivity|]. cbn [noslash] in H. apply andb_prop in H. destruct H as [Hc Hr].
+  rewrite escape_cons. 
+  assert (Ha : forall a b, noslash (a ++ b) = noslash a && noslash b).
+  { induction a as [|x a' IHa]; intro b; [reflexivity|]. cbn [append noslash]. now rewrite IHa, Bool.andb_assoc. }
+  rewrite Ha, (IH Hr), Bool.andb_true_r. unfold esc_char.
+  destruct (Ascii.eqb c (ascii_of_N 92)); [reflexivity|]. destruct (Ascii.eqb c (ascii_of_N 34)); [reflexivity|].
+  destruct (Ascii.eqb c (ascii_of_N 10)); [reflexivity|]. cbn [noslash]. now rewrite Hc.
+Qed.
+Lemma escape_nonempty : forall s, s <> "" -> escape_for_dot s <> "".
+Proof.
+  intros s H. destruct s as [|c r]; [congruence|]. rewrite escape_cons. unfold esc_char.
+  destruct (Ascii.eqb c (ascii_of_N 92)); [discriminate|]. destruct (Ascii.eqb c (ascii_of_N 34)); [discriminate|].
+  destruct (Ascii.eqb c (ascii_of_N 10)); discriminate.
+Qed.
+
+Lemma base_of_escaped_base : forall p, path_base (escape_for_dot (path_base p)) = escape_for_dot (path_base p).
+Proof.
+  intro p. destruct (path_base_shape p) as [E|[E|[Hn Hne]]].
+  - rewrite E. reflexivity.
+  - rewrite E. reflexivity.
+  - apply path_base_noslash; [now apply escape_noslash | now apply escape_nonempty].
+Qed.
+
+Lemma label_tail_safe : forall i,
+  forallb qsafe (name_tail (ml_name (ni_short i)) (ml_file (ni_file i)) (ml_obj (ni_obj i)) (ni_line i) (ni_col i)) = true.
+Proof.
+  intro i. unfold name_tail, ml_file, ml_obj.
+  assert (Hf : qsafe (if String.eqb (ni_file i) "" then "" else escape_for_dot (path_base (ni_file i))) = true)
+    by (destruct (String.eqb (ni_file i) ""); [reflexivity | apply escape_safe]).
+  destruct (negb (ni_line i =? 0)).
+  - cbn [forallb]. rewrite Bool.andb_true_r. destruct (ni_col i =? 0); qs.
+  - destruct (String.eqb (ni_file i) "") eqn:Ef; cbn [negb String.eqb].
+    + simpl negb. cbn iota.
+      destruct (negb (String.eqb (ml_name (ni_short i)) "")); [reflexivity|].
+      destruct (String.eqb (ni_obj i) "") eqn:Eo.
+      * reflexivity.
+      * destruct (negb (String.eqb (escape_for_dot (path_base (ni_obj i))) "")); [|reflexivity].
+        cbn [forallb]. rewrite Bool.andb_true_r, base_of_escaped_base. qs.
+    + destruct (negb (String.eqb (escape_for_dot (path_base (ni_file i))) "")).
+      * cbn [forallb]. now rewrite escape_safe.
+      * destruct (negb (String.eqb (ml_name (ni_short i)) "")); [reflexivity|].
+        destruct (String.eqb (ni_obj i) "") eqn:Eo; [reflexivity|].
+        destruct (negb (String.eqb (escape_for_dot (path_base (ni_obj i))) "")); [|reflexivity].
+        cbn [forallb]. rewrite Bool.andb_true_r, base_of_escaped_base. qs.
+Qed.
+
+Lemma multiline_safe : forall i, qsafe (multiline_printable_name i) = true.
+Proof.
+  intro i. unfold multiline_printable_name. apply qsafe_app; [|reflexivity].
   apply qsafe_concat_with; [reflexivity|].
-  apply name_components_safe; [apply ml_name_safe | exact H].
+  apply name_components_safe; [apply ml_name_safe | apply label_tail_safe].
 Qed.
 
 Lemma node_label_safe : forall g n,
-  tab_safe (dg_fv g) = true -> tab_safe (dg_pct g) = true -> node_tail_safe n = true -> attrs_safe n = true ->
+  tab_safe (dg_pct g) = true -> attrs_safe n = true ->
   qsafe (fst (node_label g n)) = true /\ qsafe (snd (node_label g n)) = true.
 Proof.
-  intros g n Hfv Hpct Htail Hattr. unfold node_label.
+  intros g n Hpct Hattr. unfold node_label.
   set (l0 := match dn_attrs n with
              | Some a => match na_fmt a with Some f => f | None => multiline_printable_name (dn_info n) end
              | None => multiline_printable_name (dn_info n)
              end).
   assert (Hl0 : qsafe l0 = true).
-  { unfold l0. unfold node_tail_safe, uses_formatter in Htail. unfold attrs_safe in Hattr.
+  { unfold l0. unfold attrs_safe in Hattr.
     destruct (dn_attrs n) as [a|].
     - destruct (na_fmt a) as [f|].
       + apply andb_prop in Hattr. destruct Hattr as [Hattr _]. apply andb_prop in Hattr. destruct Hattr as [Hattr _].
         apply andb_prop in Hattr. destruct Hattr as [Hf _]. exact Hf.
-      + apply multiline_safe. exact Htail.
-    - apply multiline_safe. exact Htail. }
-  pose proof (zlookup_safe (dg_fv g) (dn_flat n) Hfv) as Hf.
-  pose proof (zlookup_safe (dg_fv g) (dn_cum n) Hfv) as Hc.
+      + apply multiline_safe.
+    - apply multiline_safe. }
+  pose proof (fmt_value_safe (dg_fv g) (dn_flat n)) as Hf.
+  pose proof (fmt_value_safe (dg_fv g) (dn_cum n)) as Hc.
   pose proof (zlookup_safe (dg_pct g) (dn_flat n) Hpct) as Hpf.
   pose proof (zlookup_safe (dg_pct g) (dn_cum n) Hpct) as Hpc.
   assert (Hl1 : qsafe (if dn_flat n =? 0 then l0 ++ "0"
-                       else l0 ++ zlookup (dg_fv g) (dn_flat n) ++ " (" ++ zlookup (dg_pct g) (dn_flat n) ++ ")") = true).
+                       else l0 ++ fmt_value (dg_fv g) (dn_flat n) ++ " (" ++ zlookup (dg_pct g) (dn_flat n) ++ ")") = true).
   { destruct (dn_flat n =? 0); qs. }
   destruct (dn_cum n =? dn_flat n); simpl; [split; assumption|].
   split; [|exact Hc].
@@ -183,11 +292,11 @@ Proof.
 Qed.
 
 Lemma node_stmt : forall g n id,
-  tab_safe (dg_fv g) = true -> tab_safe (dg_pct g) = true -> node_tail_safe n = true -> attrs_safe n = true ->
+  tab_safe (dg_pct g) = true -> attrs_safe n = true ->
   0 <= id -> StmtText (emit_node g n id) [nid id] [].
 Proof.
-  intros g n id Hfv Hpct Htail Hattr Hid.
-  destruct (node_label_safe g n Hfv Hpct Htail Hattr) as [Hl Hc].
+  intros g n id Hpct Hattr Hid.
+  destruct (node_label_safe g n Hpct Hattr) as [Hl Hc].
   unfold emit_node. destruct (node_label g n) as [label cumv]. simpl in Hl, Hc.
   change ("N" ++ zs id ++ " [label=" ++ q label ++ " id=" ++ q ("node" ++ zs id) ++ " fontsize=0 shape=" ++ node_shape n ++
           " tooltip=" ++ q (escape_for_dot (printable_name (dn_info n)) ++ " (" ++ cumv ++ ")") ++
@@ -227,11 +336,11 @@ Proof. intros e lit toks Hl Hb. exists toks. split; [now apply attrs_bodyb_ok' |
 Lemma edge_scaled_pos : forall w t k c, (1 <? edge_scaled w t k c) = true -> 0 <= edge_scaled w t k c.
 Proof. intros w t k c H. apply Z.ltb_lt in H. lia. Qed.
 
-Lemma edge_stmt : forall g e hn, tab_safe (dg_fv g) = true -> 0 <= de_from e -> 0 <= de_to e ->
+Lemma edge_stmt : forall g e hn, 0 <= de_from e -> 0 <= de_to e ->
   StmtText (emit_edge g e hn) [] [nid (de_from e); nid (de_to e)].
 Proof.
-  intros g e hn Hfv Hf Ht.
-  pose proof (zlookup_safe (dg_fv g) (de_w e) Hfv) as Hw.
+  intros g e hn Hf Ht.
+  pose proof (fmt_value_safe (dg_fv g) (de_w e)) as Hw.
   unfold emit_edge. cbv zeta.
   match goal with |- StmtText ("N" ++ zs ?f ++ " -> N" ++ zs ?t ++ ?S) _ _ =>
     change (StmtText (nid f ++ " -> " ++ nid t ++ S) [] [nid f; nid t]) end.
@@ -267,16 +376,16 @@ Qed.
 
 (* ---------------- sequences ---------------- *)
 Lemma nodes_stmt : forall g ns id,
-  tab_safe (dg_fv g) = true -> tab_safe (dg_pct g) = true ->
-  forallb node_tail_safe ns = true -> forallb attrs_safe ns = true -> 0 <= id ->
+  tab_safe (dg_pct g) = true ->
+  forallb attrs_safe ns = true -> 0 <= id ->
   exists d e, StmtText (emit_nodes g ns id) d e /\ (forall x, In x e -> In x d) /\
               (forall k, id <= k < id + Z.of_nat (List.length ns) -> In (nid k) d).
 Proof.
-  intros g ns. induction ns as [|n r IH]; intros id Hfv Hpct Ht Ha Hid.
+  intros g ns. induction ns as [|n r IH]; intros id Hpct Ha Hid.
   - exists [], []. split; [apply Stmt_nil|]. split; [intros x [] | simpl; intros k Hk; lia].
-  - simpl in Ht, Ha. apply andb_prop in Ht. destruct Ht as [Ht1 Ht2]. apply andb_prop in Ha. destruct Ha as [Ha1 Ha2].
-    destruct (IH (id + 1) Hfv Hpct Ht2 Ha2 ltac:(lia)) as [dr [er [Sr [Cr Nr]]]].
-    destruct (nodelets_stmt g n id Hfv Hid) as [dl [el [Sl Cl]]].
+  - simpl in Ha. apply andb_prop in Ha. destruct Ha as [Ha1 Ha2].
+    destruct (IH (id + 1) Hpct Ha2 ltac:(lia)) as [dr [er [Sr [Cr Nr]]]].
+    destruct (nodelets_stmt g n id Hid) as [dl [el [Sl Cl]]].
     exists ([nid id] ++ dl ++ dr)%list, ([] ++ el ++ er)%list.
     change (emit_nodes g (n :: r) id) with (emit_node g n id ++ emit_nodelets g n id ++ emit_nodes g r (id + 1)).
     split; [|split].
@@ -302,11 +411,11 @@ Definition edge_ids_nonneg (g : dgraph) : bool :=
 Definition endpoints (es : list dedge) : list string :=
   flat_map (fun e => [nid (de_from e); nid (de_to e)]) es.
 
-Lemma edges_stmt : forall g (f : dedge -> bool) es, tab_safe (dg_fv g) = true ->
+Lemma edges_stmt : forall g (f : dedge -> bool) es,
   forallb (fun e => (0 <=? de_from e) && (0 <=? de_to e)) es = true ->
   StmtText (String.concat "" (map (fun e => emit_edge g e (f e)) es)) [] (endpoints es).
 Proof.
-  intros g f es Hfv. induction es as [|e r IH]; intro H.
+  intros g f es. induction es as [|e r IH]; intro H.
   - apply Stmt_nil.
   - simpl in H. apply andb_prop in H. destruct H as [He Hr]. apply andb_prop in He. destruct He as [H1 H2].
     apply Z.leb_le in H1. apply Z.leb_le in H2.
@@ -428,8 +537,7 @@ Theorem compose_dot_valid : forall g, holes_safe g = true -> edge_ids_nonneg g =
   (edges_within_nodes g = true -> dot_edges_ok (compose_dot g) = true).
 Proof.
   intros g Hh Hids. unfold holes_safe in Hh.
-  apply andb_prop in Hh. destruct Hh as [Hh Hattr]. apply andb_prop in Hh. destruct Hh as [Hh Htail].
-  apply andb_prop in Hh. destruct Hh as [Hfv Hpct].
+  apply andb_prop in Hh. destruct Hh as [Hpct Hattr].
   destruct (header_run g) as [th [Lh [Rh [Dh [Ch Eh]]]]].
   destruct (legend_stmt g) as [dl [tl [Ll Pl]]].
   set (B := match dg_nodes g with [] => "" | _ => emit_nodes g (dg_nodes g) 1 ++ emit_edges g end).
@@ -437,10 +545,10 @@ Proof.
   { unfold B. destruct (dg_nodes g) as [|n0 ns0] eqn:EN.
     - exists [], []. split; [apply Stmt_nil | intros _ x []].
     - rewrite <- EN in *.
-      destruct (nodes_stmt g (dg_nodes g) 1 Hfv Hpct Htail Hattr ltac:(lia)) as [dn [en [Sn [Cn Nn]]]].
+      destruct (nodes_stmt g (dg_nodes g) 1 Hpct Hattr ltac:(lia)) as [dn [en [Sn [Cn Nn]]]].
       exists (dn ++ [])%list, (en ++ endpoints (dg_edges g))%list. split.
       + stmt_app dn en (@nil string) (endpoints (dg_edges g)); [exact Sn|].
-        unfold emit_edges. apply edges_stmt; [exact Hfv | exact Hids].
+        unfold emit_edges. apply edges_stmt. exact Hids.
       + intros Hw x Hx. apply in_or_app. left. apply in_app_or in Hx. destruct Hx as [Hx|Hx]; [now apply Cn|].
         destruct (endpoints_in _ _ Hx) as [e [He Hxe]].
         unfold edges_within_nodes in Hw. rewrite forallb_forall in Hw. specialize (Hw e He).
